@@ -98,12 +98,12 @@ def validity_clauses(code):
 
 def check_case(c):
     try:
-        code = K.build(c['class'], tuple(c['size']), (c['deform'][0], c['deform'][1]))
+        code = K.build(c['class'], tuple(c['size']), (c['deform'][0], c['deform'][1]), reuse=bool(c.get('reuse')))
         r = validity_clauses(code)
     except Exception as e:  # noqa
         return f'raised {type(e).__name__}: {e}'
     if r:
-        return f'{r[0]}: {r[1]}'
+        return f'{r[0]}: {r[1]}' + (' (object used and deformed before this deformation)' if c.get('reuse') else '')
     return None
 
 
@@ -125,6 +125,9 @@ def cases_for(ctx, deep):
         for s in sizes_d:
             for d in defs[1:]:
                 cases.append({'class': cls, 'size': list(s), 'deform': [d[0], d[1]]})
+        for s in sizes_d[:2]:
+            for d in defs[1:]:
+                cases.append({'class': cls, 'size': list(s), 'deform': [d[0], d[1]], 'reuse': True})
         if deep:
             bigger = K.all_sizes(cls, 8 if K.dimension(cls) == 2 else 5, n_max=700)
             extra = [s for s in bigger if s not in sizes]
@@ -141,7 +144,7 @@ def cases_for(ctx, deep):
 def match_key(c):
     if c.get('nonsquare'):
         return {'class': c['class'], 'size_class': 'L_x != L_y'}
-    return {'class': c['class'], 'size': c['size'], 'deform': c['deform'][0]}
+    return {'class': c['class'], 'size': c['size'], 'deform': c['deform'][0], 'reuse': bool(c.get('reuse'))}
 
 
 def oracle(ctx, deep=False, broken=None):
